@@ -49,6 +49,16 @@ func main() {
 		os.Exit(2)
 	}
 	tr := traceroute.NewTraceroute()
+	// "twice": the same request is served twice by this process; between the two the lab changes something (the driver waits for
+	// a line on stdin). Only the second answer is reported: what the process did before must not matter.
+	if len(os.Args) > 2 && os.Args[2] == "twice" {
+		tr.RunTraceroute(context.Background(), traceroute.TracerouteParams{
+			Hostname: r.Hostname, Port: r.Port, Protocol: r.Protocol, TCPMethod: traceroute.TCPMethod(r.TCPMethod), MinTTL: r.MinTTL, MaxTTL: r.MaxTTL,
+			Delay: 20, Timeout: time.Duration(r.TimeoutMs) * time.Millisecond, TracerouteQueries: r.Queries, E2eQueries: r.E2E, WantV6: r.WantV6, SkipPrivateHops: r.Skip})
+		fmt.Println("FIRST-DONE")
+		var line string
+		fmt.Scanln(&line)
+	}
 	res, err := tr.RunTraceroute(context.Background(), traceroute.TracerouteParams{
 		Hostname: r.Hostname, Port: r.Port, Protocol: r.Protocol, TCPMethod: traceroute.TCPMethod(r.TCPMethod), MinTTL: r.MinTTL, MaxTTL: r.MaxTTL,
 		Delay: 20, Timeout: time.Duration(r.TimeoutMs) * time.Millisecond, TracerouteQueries: r.Queries, E2eQueries: r.E2E, WantV6: r.WantV6, SkipPrivateHops: r.Skip})
